@@ -187,6 +187,11 @@ def nestedOp (ps : List Part) : Str :=
   else if fill.any (fun w => contains (str "[OR]") w) then opOR
   else opAND
 
+/-- merge of a group's statement with the components written outside the braces
+    (`CopyComponentsFromStatement`: group value first, bAND) -/
+def mergeStmt (g outside : PStmt) : PStmt :=
+  sortFields (outside.foldl (fun acc p => addField opBAND p.1 p.2 acc) g)
+
 mutual
 def denoteS : Stmt → PStmt
   | .mk ps =>
@@ -215,18 +220,33 @@ def denoteCombos : List Part → PStmt → PStmt
 def denoteNested (op : Str) : List Part → PStmt → PStmt
   | [], acc => acc
   | .nested h s :: ps, acc =>
-    let n := PNode.stmt (hdrMeta h {}) (denoteS s)
+    let n := nestedNode h s
     denoteNested op ps (match h.sym.complex with | some f => addField op f n acc | none => acc)
   | _ :: ps, acc => denoteNested op ps acc
 def denoteN : NTree → PNode
   | .one h s => .stmt { (hdrMeta h {}) with ct := [] } (denoteS s)
   | .op o l r => .comb o.str [] [] {} [] (denoteN l) (denoteN r)
+/-- the value of a nested component: the inner statement — or, when the inner statement contains
+    a component-pair combination, the tree of the statements it expands into, whose root
+    carries the component's header -/
+def nestedNode (h : Hdr) : Stmt → PNode
+  | .mk ips =>
+    let fs := sortFields (denoteNested (nestedOp ips) ips (denoteCombos ips (denoteSimple ips [])))
+    match pairsIn fs ips with
+    | none => .stmt (hdrMeta h {}) fs
+    | some pn => pn.withMeta (hdrMeta h)
+/-- the first component-pair combination among the parts, expanded over `outside` -/
+def pairsIn (outside : PStmt) : List Part → Option PNode
+  | [] => none
+  | .pairs t :: _ => some (groupsG outside t)
+  | _ :: ps => pairsIn outside ps
+/-- one complete statement per group (group merged with everything outside), linked by the
+    written operator tree -/
+def groupsG (outside : PStmt) : GTree → PNode
+  | .grp (.mk gps) =>
+    .pairs {} [.stmt {} (mergeStmt (sortFields (denoteNested (nestedOp gps) gps (denoteCombos gps (denoteSimple gps [])))) outside)]
+  | .op o l r => .comb o.str [] [] {} [] (groupsG outside l) (groupsG outside r)
 end
-
-/-- merge of a group's statement with the components written outside the braces
-    (`CopyComponentsFromStatement`: group value first, bAND) -/
-def mergeStmt (g outside : PStmt) : PStmt :=
-  sortFields (outside.foldl (fun acc p => addField opBAND p.1 p.2 acc) g)
 
 def Part.isPairs : Part → Bool
   | .pairs _ => true
@@ -240,9 +260,7 @@ def firstPairs : List Part → Option GTree
   | .pairs t :: _ => some t
   | _ :: ps => firstPairs ps
 
-def denoteG (outside : PStmt) : GTree → PNode
-  | .grp s => .pairs {} [.stmt {} (mergeStmt (denoteS s) outside)]
-  | .op o l r => .comb o.str [] [] {} [] (denoteG outside l) (denoteG outside r)
+def denoteG (outside : PStmt) (t : GTree) : PNode := groupsG outside t
 
 /-- result of `parser.ParseStatement`: one root node -/
 def denoteTop (s : Stmt) : PNode :=
